@@ -14,6 +14,9 @@ import Mtv.Session.Start
   client that runs the key exchange for both ways of saying "nothing stored". `<store>+<warnings>`: what the
   application does with the client's `Warnings` channel (nil | buffered | unread | drained): the client machine has
   no such channel — a key exchange with a conformant server sends nothing on it —, the suffix is only checked.
+  `<store>+<warnings>+<first>`: the request(s) the application issues after the exchange (`/`-separated:
+  ping | pingdelay | salts | config | bytes<N>); checked only — the result line ends with the exchange, what the
+  conformant server makes of the encrypted messages is the oracle's on the Go side.
     c06.hist <tag> <history> <store> <the 18 tokens>
   the exchange as step `x` of a history of ONE client object (`dial,disc,fail1..3` before it, `reconnect,disc,create`
   after it; see `hsPlan` in x_hsserver.go). The exchange itself is answered like a `c06.hs`: the model's client
@@ -44,11 +47,29 @@ def timeTok? (t : String) : Option Nat :=
   | 'n' :: 'o' :: 'w' :: '-' :: k => (String.ofList k).toNat?.bind fun k => if k ≤ 100000 then some (1800000000 - k) else none
   | _ => t.toNat?.bind fun k => if k < 2 ^ 31 then some k else none
 
-/-- `<store>` or `<store>+<warnings>` -/
+/-- one request the application issues after the exchange: `ping | pingdelay | salts | config | bytes<N>`, N a decimal
+number without leading zeros, at most 4096 (`hsRequest` in x_hsserver.go) -/
+def requestTok (t : String) : Bool :=
+  t ∈ ["ping", "pingdelay", "salts", "config"] ||
+  (match t.toList with
+   | 'b' :: 'y' :: 't' :: 'e' :: 's' :: ds =>
+     ds.all Char.isDigit && 1 ≤ ds.length && ds.length ≤ 4 && (ds.length = 1 || ds.head? ≠ some '0') &&
+       (match (String.ofList ds).toNat? with | some n => n ≤ 4096 | none => false)
+   | _ => false)
+
+/-- `/`-separated list of one to four requests -/
+def firstTok (t : String) : Bool :=
+  let rs := t.splitOn "/"
+  1 ≤ rs.length && rs.length ≤ 4 && rs.all requestTok
+
+/-- `<store>`, `<store>+<warnings>` or `<store>+<warnings>+<first>` (the requests issued after the exchange: the client
+machine ends with the exchange; what the server reads afterwards is judged on the real client only) -/
 def storeTok? (t : String) : Option String :=
+  let warn (w : String) : Bool := w ∈ ["nil", "buffered", "unread", "drained"]
   match t.splitOn "+" with
   | [st] => some st
-  | [st, w] => if w ∈ ["nil", "buffered", "unread", "drained"] then some st else none
+  | [st, w] => if warn w then some st else none
+  | [st, w, f] => if warn w && firstTok f then some st else none
   | _ => none
 
 /-- configuration of the client and secrets of the server of a `c06.hs` line -/
